@@ -28,7 +28,7 @@ RULE += (' '
          'frame of exactly 65536 bytes arriving alone, wake-up latency '
          'jitter.')
 SHRINK_LISTS = [('data',)]
-EXPECTED_PROBES = ['unresponsive_seen', 'close_timeout_fired', 'ping_rate_zero',
+EXPECTED_PROBES = ['both_deadlines_passed_at_one_wakeup', 'unresponsive_seen', 'close_timeout_fired', 'ping_rate_zero',
                    'late_pong', 'close_timeout_disabled', 'ping_lt_poll',
                    'graceful_end', 'jitter', 'data_wakeups', 'ping_windows_checked',
                    'trickled_frame', 'auto_pong_off',
@@ -43,7 +43,8 @@ EPS = 2e-5      # float rounding at a 1.7e9 epoch (2^-22 s) with margin
 
 def plan(tier):
     return [('seeded', 12000 if tier == 'quick' else 250000),
-            ('jitter', 1500 if tier == 'quick' else 60000)]
+            ('jitter', 1500 if tier == 'quick' else 60000),
+            ('coincide', 1500 if tier == 'quick' else 40000)]
 
 
 def make_case(family, i, rng, tier):
@@ -133,6 +134,25 @@ def make_case(family, i, rng, tier):
     case['end'] = rng.choice(['eof', 'eof', 'rst'])
     if family == 'jitter':
         case['latency'] = rng.choice([1000, 20000, int(p * 2e5)])
+    if family == 'coincide':
+        # several deadlines run out between the same two wake-ups: the ping
+        # timeout (nobody answers) and the close timeout of a Close the
+        # server ignores, in either order, a fraction of p apart
+        k = rng.choice([1, 2, 5])
+        m = k + rng.choice([1, 2, 4])
+        f1, f2 = rng.choice([(0.3, 0.6), (0.6, 0.3), (0.1, 0.9), (0.5, 0.5),
+                             (0.97, 0.03)])
+        case.update({
+            'ping_rate': rng.choice([0, 0, p * 2, p * 3]),
+            'ping_timeout': round((m + f1) * p, 6),
+            'close_timeout': round((m + f2 - k) * p, 6),
+            'pong': None, 'close_mode': 'app_close',
+            'close_at': {'name': 'poll', 'nth': k},
+            'close_reply': 'never', 'data': [], 'reply_delay': 0,
+            'horizon': (m + 6) * p, 'auto_pong': True})
+        for kk in ('heartbeat', 'server_pings', 'trickle', 'full_read_at',
+                   'close_repeat'):
+            case.pop(kk, None)
     return case
 
 
@@ -406,6 +426,31 @@ def execute(case):
             res.stats['probe:late_pong'] += 1
     # ---- close timeout
     disc = term if term.name == 'disconnected' else None
+    if unresp and close_T is not None and c and \
+            rel(unresp[0].t) >= close_T + c - eps:
+        res.stats['probe:both_deadlines_passed_at_one_wakeup'] += 1
+    if t and disc is not None and not unresp and not disc.snap[1] \
+            and 'protocol_error' not in names:
+        # The connection was ended by force (close timeout) at E.  If more
+        # than t had passed since the last sign of life by then, the same
+        # wake-up had to report Unresponsive first: both checks look at one
+        # clock reading.  Every Pong event and every Pong the server sent on
+        # its own up to E counts as a sign of life (lenient).
+        signs = [x for x in marks if x <= E + eps]
+        hb_ = case.get('heartbeat')
+        if hb_:
+            k_ = 1
+            while k_ * hb_['every'] <= min(hb_['until'], E):
+                signs.append(k_ * hb_['every'])
+                k_ += 1
+        eofs_ = [rel(m[1]) for m in w.marks]
+        if not any(x <= E + p + L + eps for x in eofs_) and \
+                E - max(signs) > t + L + eps and not case.get('trickle'):
+            res.stats['probe:deadlines_coincided'] += 1
+            res.bad('C15/unresponsive/skipped_when_deadlines_coincide',
+                    'forced Disconnected at %.6f without Unresponsive although '
+                    'the last Pong/Ready was at %.6f and t=%s (p=%s c=%s)' % (
+                        E, max(signs), t, p, c))
     graceful = bool(disc and disc.snap[1])
     if graceful:
         res.stats['probe:graceful_end'] += 1
